@@ -602,9 +602,22 @@ class CPreProcessor:
                 rt2 = token.copy(space=first_space)
             else:
                 rt2 = token.copy()
-            new_line.append(rt2)
+            new_line.append(self.no_operator(rt2))
             first = False
         return new_line
+
+    @staticmethod
+    def no_operator(token):
+        """Mark a '##' token as being an ordinary token.
+
+        Only a '##' which is written in the replacement list of a macro
+        is the concatenation operator. A '##' which arrives by means of
+        an argument, or which is the result of a concatenation is not
+        (C99 6.10.3.3).
+        """
+        if token.typ == "##":
+            token.typ = "##TEXT"
+        return token
 
     def stringify(self, hash_token, snippet, loc):
         """Handle the '#' stringify operator.
@@ -642,7 +655,8 @@ class CPreProcessor:
         # Invoke the lexer again on glued text to produce tokens:
         tokens = lex_text(total_text, self.coptions)
         if len(tokens) == 1:
-            return tokens[0].copy(space=lhs.space, first=lhs.first)
+            token = tokens[0].copy(space=lhs.space, first=lhs.first)
+            return self.no_operator(token)
         else:
             self.error(f'Invalidly glued "{total_text}"', loc=lhs.loc)
 
